@@ -93,6 +93,37 @@ def _k5b(cex):
     return cex.get("kind") == "max_npedf_ne_fifo" and cex.get("some_task_never_releases") is True
 
 
+C20_KINDS = ("profile_dependent_or_panic", "ros_profile_dependent_or_panic", "query_profile_dependent")
+
+
+@matcher("k1_c20")
+def _k1c20(cex):
+    return cex.get("kind") in C20_KINDS and "K1" in cex.get("reasons", [])
+
+
+@matcher("f9_edf_never_releasing_tua")
+def _f9(cex):
+    return cex.get("kind") == "profile_dependent_or_panic" and cex.get("tua_never_releases") is True and \
+        cex.get("analysis") in ("edf_np", "edf_lp")
+
+
+@matcher("f3_c20_bw_debug_assert")
+def _f3c20(cex):
+    return cex.get("kind") == "ros_profile_dependent_or_panic" and "F3" in cex.get("reasons", []) and \
+        cex.get("op", "").startswith("bw ") and cex.get("checked") == "panic"
+
+
+@matcher("f11_bw_debug_hang")
+def _f11(cex):
+    return cex.get("kind") == "ros_profile_dependent_or_panic" and cex.get("bw_debug_hang") is True and \
+        "NEVER" in cex.get("reasons", [])
+
+
+@matcher("f5_wcet_extrapolate_zero")
+def _f5(cex):
+    return cex.get("kind") == "wcet_extrapolate_zero"
+
+
 def classify(pid, cexs):
     """returns (known, new): known = list of (finding, first matching cex) (one per
     finding), new = list of counterexamples no known finding accepts."""
